@@ -90,13 +90,6 @@ PY = "/venv/bin/python"
 #  allow-list of in-place sites was replaced by analysis — was REPAIRED in /repo by aef9931; the operation `to_dev` stays in the
 #  history stream as a regression: it must leave the receiver unchanged, a change is a VIOLATION.)
 PROVISIONAL_KNOWN = {}
-_FORMERLY_PROVISIONAL = {
-    "first-instance-representative":
-        "the registry `_dynamic` of a (parametrised) class is fixed by its FIRST instance: `A[i0:i1, :]` and "
-        "`A[index_array, :]` are both of class `Sliced[]`; whichever is built first decides whether `slices` is a "
-        "pytree child, so later the leaves of flatten() contain slice objects (array first) or miss the index arrays "
-        "(slice first); same for container attributes (`Ms`) of classes such as Kronecker[Sliced[Identity, tuple], Identity]",
-}
 
 SIZES = (4, 8, 16, 32)
 
@@ -177,6 +170,7 @@ class EnvBase:
         self.dirty = False
         self.surprises = []         # outcomes `predict` did not name (evidence + reported)
         self.lib0 = {}              # id(result operator) -> its library-owned state at the moment it was returned
+        self.sig0 = {}              # id(result operator) -> leaf_sig at the moment it was returned
 
     # partners for binary algebra, by size (built lazily; they wrap caller-owned arrays)
     def partner(self, what, n):
@@ -292,18 +286,18 @@ def ann_names(A):
 #    attribute, nothing skipped), the Algorithm objects the caller constructed (`env.algs`: every field by value AND by object
 #    identity — x0, start_vector, the preconditioner operator P, tolerances — and the same for Auto(...) namespaces).  All of them
 #    are compared after every operation without any exclusion.
-#  * library-owned = objects cola itself allocated and stores inside an operator IT returned: the `info` dict of
-#    IterativeOperatorWInfo / LanczosUnary / ArnoldiUnary (log of the last run: `self.info = {}` in __init__, replaced / updated by
-#    `_matmat`; carries wall-clock timings) and the `kwargs` dict of LanczosUnary / ArnoldiUnary (`LanczosUnary(A, f, **alg.__dict__)`
-#    binds `**kwargs` to a FRESH dict — checked by `lib_state_is_fresh` whenever such an operator is returned — from which
-#    `_matmat` pops the never-read entry `start_vector`).  Only these two fields of these three classes are excluded from the
-#    snapshot of an operator cola returned (`LIB_STATE`), and only there: the exclusion never applies to a pool operator, a
-#    partner or an Algorithm object.  The OBJECTS stored in a library-owned container that came from the caller (the
-#    start_vector array, the values of alg.__dict__) stay caller-owned and are compared through `env.arr` / `env.algs`.
-#    Every time the exclusion actually hides a difference it is counted (`library_owned_state_changes` in the evidence).
+#  * library-owned = the `info` dict of IterativeOperatorWInfo / LanczosUnary / ArnoldiUnary inside an operator cola RETURNED
+#    (log of the last run: `self.info = {}` in __init__, replaced / updated by `_matmat`; carries wall-clock timings).  Only this
+#    field of these three classes is excluded from the snapshot of an operator cola returned (`LIB_STATE`), and only while the
+#    dict is not itself a caller object (`lib_state_is_fresh`); the exclusion never applies to a pool operator, a partner or an
+#    Algorithm object.  Every time the exclusion actually hides a difference it is counted (`library_owned_state_changes`).
+#    Since /repo 7ca2ac5 the `kwargs` dict of LanczosUnary / ArnoldiUnary is NOT excluded any more (`_matmat` used to pop its
+#    `start_vector` entry, so F.flatten() lost a leaf after the first F @ b): a returned operator whose attributes or whose
+#    flatten() leaves (`leaf_sig`, recorded at the moment of return) change after use is a VIOLATION; regression histories
+#    KWARGS_REGRESSION.
 LIB_STATE = {"IterativeOperatorWInfo": {"info": None},
-             "LanczosUnary": {"info": None, "kwargs": {"start_vector"}},
-             "ArnoldiUnary": {"info": None, "kwargs": {"start_vector"}}}
+             "LanczosUnary": {"info": None},
+             "ArnoldiUnary": {"info": None}}
 
 
 def _base_name(v):
@@ -367,6 +361,17 @@ def lib_state_is_fresh(op, env):
         mine.update(id(x) for x in vars(a).values() if isinstance(x, (dict, list, set)))
     mine.update(id(x) for x in dict.values(env.arr))
     return [k for k in lib if k in vars(op) and id(vars(op)[k]) in mine]
+
+
+def leaf_sig(A):
+    """the pytree leaves of an operator as the caller sees them: arrays by identity, anything else by type"""
+    try:
+        with warnings.catch_warnings():
+            warnings.simplefilter("ignore")
+            leaves = A.flatten()[0]
+    except Exception as ex:  # noqa: BLE001
+        return ("error", type(ex).__name__)
+    return tuple(("a", id(x)) if isinstance(x, np.ndarray) else ("t", type(x).__name__) for x in leaves)
 
 
 def dense_snap(A):
@@ -797,7 +802,7 @@ def _b_and_units(env, A):
 
 @op("lanczos_fn")
 def _(env, A, last):
-    # the LanczosUnary operator itself (returned to the caller; later products pop its kwargs / update its info: LIB_STATE)
+    # the LanczosUnary operator itself (returned to the caller; later products update its info: LIB_STATE; its kwargs and flatten() leaves must stay — KWARGS_REGRESSION)
     return cola.exp(hpd_operand(env, A, _b_and_units(env, A), 3), env.alg("lanczos_sv", _n(A)))
 
 
@@ -923,6 +928,7 @@ class Env(EnvBase):
         self.produced = []          # [(label, operator, snapshot, full snapshot | None)] operator values returned by earlier steps
         self.dirty = False
         self.lib0 = {}
+        self.sig0 = {}
         if self.lib_changes is None:
             self.lib_changes = {}       # "<Class>.<field>" -> how often the LIB_STATE exclusion hid a change (evidence)
 
@@ -934,9 +940,10 @@ class Env(EnvBase):
         if has_lib and not skip:
             self.lib_changes["shared-with-caller"] = self.lib_changes.get("shared-with-caller", 0) + 1
         # the library-owned state as it was when the operator was RETURNED (recorded by apply_op, before any fingerprint /
-        # snapshot: their to_dense() is itself a product with the operator and already pops kwargs / fills info)
+        # snapshot: their to_dense() is itself a product with the operator and already fills info)
         lib0 = (self.lib0.pop(id(op), None) or _lib_fields(op)) if skip else None
-        self.produced.append((label, op, snap_op(op, skip=skip), lib0, skip))
+        sig0 = self.sig0.pop(id(op), None) or leaf_sig(op)
+        self.produced.append((label, op, snap_op(op, skip=skip), lib0, skip, sig0))
 
     def check(self, step, involved, full=False):
         """-> differences between the caller's values and their snapshots.  After every operation:
@@ -965,9 +972,13 @@ class Env(EnvBase):
                 diffs.append({"what": "caller-owned Algorithm object changed", "operator": str(k), "step": step,
                               "field": _struct_diff(s0[0], s1[0]) or
                               "a field was rebound to another object: " + str([a_[0] for a_, b_ in zip(s0[1], s1[1]) if a_ != b_] or "field set changed")})
-        for i, (label, o, s0, full0, skip) in enumerate(self.produced):
+        for i, (label, o, s0, full0, skip, sig0) in enumerate(self.produced):
             s1 = snap_op(o, skip=skip)
-            if s1 != s0:
+            sig1 = leaf_sig(o)
+            if sig1 != sig0:
+                diffs.append({"what": "flatten() leaves of an operator changed after it was returned to the caller", "operator": label,
+                              "step": step, "field": f"{len(sig0)} leaves when returned, {len(sig1)} now", "class": type(o).__name__})
+            elif s1 != s0:
                 diffs.append({"what": "an operator changed after it was returned to the caller", "operator": label,
                               "step": step, "field": _explain(s0, s1), "class": type(o).__name__, "only_device": _only_device(s0, s1)})
             elif full0 is not None:
@@ -977,7 +988,7 @@ class Env(EnvBase):
                     for key in sorted(set(full0) | set(full1)):
                         if full0.get(key) != full1.get(key):
                             self.lib_changes[key[1]] = self.lib_changes.get(key[1], 0) + 1
-                    self.produced[i] = (label, o, s0, full1, skip)
+                    self.produced[i] = (label, o, s0, full1, skip, sig0)
         if diffs:
             self.dirty = True
         return diffs
@@ -987,7 +998,7 @@ class Env(EnvBase):
 # raises half-way must not have modified its inputs either) and the class of the exception is compared with `predict`.
 EXPECTED_RAISING = {
     "to_dev": "xnp.move_to refuses a device argument on the NumPy backend: every operator with an array leaf raises RuntimeError",
-    "gmres_tri": "run_householder_arnoldi permutes a 2-D array with 3 axes: use_householder=True raises ValueError on every input",
+    "gmres_tri": "same path as arnoldi_hh; defined, but in no alphabet: it never runs",
     "arnoldi_hh": "run_householder_arnoldi permutes a 2-D array with 3 axes: use_householder=True raises ValueError on every input",
 }
 
@@ -1035,8 +1046,10 @@ def apply_op(env, name, A, last):
                 env.surprises.append({"op": name, "operand_class": type(A).__name__, "annotations": list(ann_names(A)),
                                       "predicted": pred, "raised": "nothing (the call succeeded)"})
             for r in (res if isinstance(res, (tuple, list)) else [res]):
-                if isinstance(r, LinearOperator) and _has_lib_state(r):
-                    env.lib0[id(r)] = _lib_fields(r)
+                if isinstance(r, LinearOperator):
+                    env.sig0[id(r)] = leaf_sig(r)          # before any fingerprint / snapshot (their to_dense() USES the operator)
+                    if _has_lib_state(r):
+                        env.lib0[id(r)] = _lib_fields(r)
             return "ok", res
 
 
@@ -1198,6 +1211,10 @@ HEAVY = ["exp", "inv", "exp_auto", "lanczos_fn", "arnoldi_fn", "inv_cg_op"]
 HEAVY_FOLLOW = ["matvec", "flatten", "PSD", "cg"]
 # operators that carry library-owned mutable state (LIB_STATE): returned to the caller, then used twice / flattened after use
 STATEFUL = ["lanczos_fn", "arnoldi_fn", "inv_cg_op"]
+# regression of /repo 7ca2ac5 (LanczosUnary / ArnoldiUnary._matmat popped kwargs['start_vector']): on the pool kind `psd`
+# `lanczos_fn` is exactly F = cola.exp(cola.PSD(Dense(M)), cola.Lanczos(start_vector=v, max_iters=3)); then F @ b; F must keep its
+# attributes and its flatten() leaves
+KWARGS_REGRESSION = [("lanczos_fn", "matvec"), ("arnoldi_fn", "matvec"), ("lanczos_fn", "matvec", "flatten")]
 STATEFUL_FOLLOW = [("matvec", "matvec"), ("matmat", "flatten"), ("matvec", "T"), ("add", "matvec"), ("matvec", "to_dense")]
 LONG_ALPHABET = [o for o in ALPHABET if o not in ("gmres_tri",) and o not in HEAVY]
 
@@ -1318,6 +1335,7 @@ def all_histories(ctx):
     hs = [(a,) for a in A] + list(itertools.product(A, A))
     hs += [(h,) for h in HEAVY] + [(h, x) for h in HEAVY for x in HEAVY_FOLLOW]
     hs += [(h,) + f for h in STATEFUL for f in STATEFUL_FOLLOW]
+    hs += [h for h in KWARGS_REGRESSION if h not in hs]
     hs += DEVICE_MOVES
     n_ex2 = len(hs)
     if ctx.thorough:
@@ -1434,8 +1452,8 @@ def part_a(ctx, cov):
         "ownership": "caller-owned (compared after every operation, nothing excluded): the arrays of the environment, pool operators and "
                      "partners, Algorithm objects (fields by value and identity, incl. x0 / start_vector / preconditioner P / Auto "
                      "namespaces); library-owned (excluded from the snapshot of an operator cola RETURNED, each hidden difference "
-                     "counted in library_owned_state_changes): `info` of IterativeOperatorWInfo / LanczosUnary / ArnoldiUnary and the "
-                     "`start_vector` entry of the fresh `kwargs` dict of LanczosUnary / ArnoldiUnary",
+                     "counted in library_owned_state_changes): only `info` of IterativeOperatorWInfo / LanczosUnary / ArnoldiUnary; a "
+                     "returned operator's other attributes (incl. `kwargs`) and its flatten() leaves must not change when it is used",
         "samples": [list(h) for h in (hs[40:43] + l3[:2] + longs[:2])],
         "compare": "bytes (tobytes of every caller-owned array after every operation; class/shape/dtype/annotations/device, "
                    "deep attribute snapshot and to_dense bytes of every operator the history touched after every operation, of "
@@ -2071,20 +2089,19 @@ def run(ctx):
         "only as the callee of direct calls in its own module (Python has no privacy: a user can still import it from its module)",
         "ownership: caller-owned = the arrays, pool operators, partners and Algorithm objects (x0, start_vector, preconditioner P, Auto "
         "namespaces; by value and identity) the caller created — compared after every operation with NOTHING excluded; library-owned "
-        "= the `info` dict of IterativeOperatorWInfo / LanczosUnary / ArnoldiUnary and the `start_vector` entry of the `kwargs` dict of "
-        "LanczosUnary / ArnoldiUnary inside an operator cola RETURNED (`**alg.__dict__` binds a fresh dict: checked by identity "
-        "whenever such an operator is returned, else nothing is excluded).  These two fields do change when the returned operator is "
-        "used (`F = cola.exp(S, Lanczos(start_vector=v)); F @ b` pops F.kwargs['start_vector'], so F.flatten() has one leaf fewer "
-        "afterwards, and stores F.info): the mutation of this private state is NOT counted as a change of the operator's value; "
-        "every hidden difference is counted in coverage.library_owned_state_changes.  What the Lean table checks mechanically for "
-        "these rows: no library code reads `info`, every object ever stored in `kwargs` / `info` was allocated by cola",
+        "= only the `info` dict (log of the last run, wall-clock timings) of IterativeOperatorWInfo / LanczosUnary / ArnoldiUnary inside an "
+        "operator cola RETURNED, and only while that dict is not itself a caller object; every difference the exclusion hides is "
+        "counted in coverage.library_owned_state_changes.  Everything else of a returned operator — its attributes including `kwargs`, "
+        "and its flatten() leaves as recorded at the moment of return — must not change when the operator is used (the former "
+        "`kwargs.pop('start_vector')` of LanczosUnary / ArnoldiUnary._matmat was repaired in /repo 7ca2ac5; KWARGS_REGRESSION histories)",
         "generator: Lanczos / CG routines get a truthfully annotated operand built from the focus operator (A itself when PSD-annotated, "
         "not member-distributing and well posed, else PSD(A^H A + M)); solve / GMRES get A or the regularised A^H A + M when A is "
         "numerically singular or its Krylov space is exhausted inside the iteration budget (the recorded breakdown defects of "
         "C06/C09/C13/C14 are not this property's subject); the op `PSD` only declares what is true; every remaining exception is "
         "compared with the class `predict` derives from the operand, anything else fails the check",
-        "run_householder_arnoldi raises ValueError on every input (permute of a 2-D array with 3 axes): use_householder=True paths "
-        "(operations gmres_tri, arnoldi_hh) are exercised up to the exception only; to_dev raises RuntimeError for every operator with an "
+        "use_householder=True raises ValueError on every input of the NumPy backend (run_householder_arnoldi permutes a 2-D array "
+        "with 3 axes) — an observation outside the 20 properties; the operation arnoldi_hh runs up to that exception (class compared), "
+        "gmres_tri is defined but NOT scheduled in any history; to_dev raises RuntimeError for every operator with an "
         "array leaf (NumPy backend has no devices); Identity.to(device, dtype) raises TypeError (its signature lacks dtype)",
     ]
     common.write_evidence(ctx, gate, cov, assumptions)
